@@ -1695,6 +1695,7 @@ STATEMENTS: dict[str, str] = {
 	'inv_stableU / det_all': 'the same over ALL histories including unloads of library modules (cascade: afterwards only base modules are registered), for every module outside the library base; extra hypothesis BaseWorld: loading base modules while only base modules are registered restores their base tables',
 	'failed_load_leaves_no_residue': 'for EVERY failure kind (syntax, missing file, missing imported name, failing import, RecursionError, Errors.Fatal = any unexpected exception inside the load): after a failed load of an unregistered module m from a coherent state, m is not registered and has no entrypoint, no symbol, no completed flag (the rollback is unconditional) — unless the library load that runs first had itself loaded m completely; non-vacuity example: a module with a free function taking `self` fails with Fatal, its importer fails the same way on the first and on the second request',
 	'unload_resets / unload_noop': 'unload m of a registered module leaves nothing of m in the registry, the entrypoints (with the node tables and memos they own), the symbol table, the completed list and the memoised identities, after the whole cascade; unload of an unregistered module changes nothing',
+	'unload_one_generated / unload_generated': 'GENERATED unload methods (translate/gen_unload_shape.py: every statement of Modules.unload, ModuleLoader.unload, Entrypoints.unload, SymbolDB.unload in source order in a small removal language; an early return, a new condition, another statement or an else branch is a TranslateError): run as programs over the model state, the statements before the cascade ARE the hand-written removal of one module (entrypoint, completed flag, symbol keys, registry entry + memoised identity: four unconditional removals), and the whole generated Modules.unload with the model unload as its recursive call IS the model unload with one more level of fuel (the cascade happens after the removal, over the dependents read in the state reached then)',
 	'inventory_unload': 'GENERATED inventory (translate/gen_session_state.py: every attribute / class-level / module-level container, every attribute rebound outside __init__, every memoised key, every setattr / cache decorator / global, every write to an attribute of another object, in all sources of rogw/tranp; writers pinned; verdict per site audited in translate/c04_state_audited.json): every site audited "removed by unload" or "owned by a per-module entry" names a model component in which unload m leaves nothing of m; every site audited "keyed by content" or "per-call stack" names a component unload does not touch',
 	'inventory_backed': 'every component of the model state except the symbol files (file system) is backed by at least one site of the inventory',
 	'inventory_audit_consistent': 'sites audited constant are written by __init__ only (class-level tables by nobody, also not from other files); sites audited removed-by-unload are written by a method named unload / clear; every memoised key is in a node table owned by an entrypoint or in the self-hosted parser',
@@ -1767,8 +1768,9 @@ def run_checked(ctx: Ctx, before: str | None) -> int:
 	translate_ok, translate_msg = True, ''
 	with ctx.timed('translate'):
 		try:
-			from translate import gen_lib_closure, gen_session_state
+			from translate import gen_lib_closure, gen_session_state, gen_unload_shape
 			ctx.generated_tables.extend(gen_session_state.generate())
+			ctx.generated_tables.extend(gen_unload_shape.generate())
 			closure_recs = gen_lib_closure.generate()
 			LIB_TABLE.update({'libs': closure_recs[0]['libs'], 'modules': closure_recs[0]['modules']})
 			ctx.generated_tables.extend(closure_recs)
